@@ -19,7 +19,11 @@ RULE = ("AC OPF (init flat / pf / results) and DC OPF problems on 2-5 bus meshed
         "column (30 % fixed) and scaling in {1, 0.5}, controllable/fixed sgens, loads, storages, 0-2 dclines with loss_percent "
         "in {0,2,5} and loss_mw in {0,1/16}, 15 % of the elements out of service, missing limit columns (NaN) on ext_grids; "
         "non-trivial = at least two OPF variables besides the ext_grid or a dcline or a fixed generator")
-ASSUMPTIONS = ["PIPS is an oracle: only runs reporting success are judged; result tolerances: 1e-4 MW/Mvar, 1e-5 p.u., 0.05 % loading (0.02 % excess observed at a binding transformer limit); its feasibility test is relative to the size of the slack variables, so the reproduction run is compared with 3e-3 MW (1e-2 MW when a limit column is missing and the 1e9 default limits enter the slacks)",
+ASSUMPTIONS = ["PIPS is an oracle: only runs reporting success are judged.  'Within the OPF tolerance' is taken from PIPS' own stopping rule: "
+               "max(|g|, h) / (1 + max(|x|, |z|)) < OPF_VIOLATION = 5e-6 with z the slacks of all inequality constraints (variable bounds in p.u., "
+               "squared current ratings in p.u.^2 for the AC OPF); opf_tol() bounds the allowed absolute violation by 1.25 * 5e-6 * (1 + S) from the "
+               "declared data and every oracle tolerance is derived from it (loading excess equivalent to that violation + 0.05 %, boxes max(1e-4 MW, tol), "
+               "voltages max(1e-5, tol), reproduction flows max(3e-3 MW, 4 tol), voltages max(1e-4, 0.2 tol), dcline law max(3e-4 MW, tol))",
                "power flow (runpp / rundcpp) convergence is an oracle for the reproduction run",
                "sqrt(3) enters the line rating as a positive number s3 (cancels in the theorem); the harness passes numpy's value"]
 TRUSTED = ["white-box capture by swapping the module attribute pandapower.optimal_powerflow.opf in the harness process"]
@@ -196,20 +200,93 @@ def guards(net):
     return []
 
 
+def _variable_rows(net, t):
+    """boolean mask of the rows of table t that are OPF variables (in service; controllable for sgen/load/storage)"""
+    tab = net[t]
+    m = tab.in_service.values.astype(bool)
+    if t in ("sgen", "load", "storage"):
+        m = m & (tab.controllable.values.astype(bool) if "controllable" in tab.columns else np.zeros(len(tab), dtype=bool))
+    return m
+
+
+LIMCOLS = ("min_p_mw", "max_p_mw", "min_q_mvar", "max_q_mvar")
+
+
 def missing_limits(net):
-    """guard of the recorded finding: some limit column of an OPF variable table holds NaN, so the default limit 1e9 is used"""
-    return any(bool(net[t][c].isnull().any()) for t in ("ext_grid", "gen", "sgen", "load", "storage") if len(net[t])
-               for c in ("min_p_mw", "max_p_mw", "min_q_mvar", "max_q_mvar") if c in net[t].columns
-               and (t in ("ext_grid", "gen") or bool(net[t].controllable.astype(bool).any())))
+    """guard of the recorded finding: a limit of an OPF variable is NaN / absent, so the default limit 1e9 is used"""
+    for t in ("ext_grid", "gen", "sgen", "load", "storage"):
+        if len(net[t]) == 0:
+            continue
+        m = _variable_rows(net, t)
+        if not m.any():
+            continue
+        for c in LIMCOLS:
+            if c not in net[t].columns or bool(net[t][c][m].isnull().any()):
+                return True
+    return False
+
+
+def _largest_limit(net):
+    vals = [abs(float(v)) for t in ("ext_grid", "gen", "sgen", "load", "storage") if len(net[t]) for c in LIMCOLS if c in net[t].columns
+            for v in net[t][c][_variable_rows(net, t)].values if v == v]
+    return max(vals + [1.0])
 
 
 def with_finite_limits(net):
+    """control problem: the missing limits replaced by the largest declared limit of the net (never binding in the
+    generated nets, and of the size of the other slack variables)"""
     n2 = copy.deepcopy(net)
+    L = _largest_limit(net)
     for t in ("ext_grid", "gen", "sgen", "load", "storage"):
-        for c, v in (("min_p_mw", -1e3), ("max_p_mw", 1e3), ("min_q_mvar", -1e3), ("max_q_mvar", 1e3)):
-            if c in n2[t].columns and len(n2[t]):
-                n2[t][c] = n2[t][c].fillna(v)
+        for c, v in (("min_p_mw", -L), ("max_p_mw", L), ("min_q_mvar", -L), ("max_q_mvar", L)):
+            if len(n2[t]):
+                if c not in n2[t].columns:
+                    n2[t][c] = v
+                else:
+                    n2[t][c] = n2[t][c].fillna(v)
     return n2
+
+
+FEASTOL = 5e-6   # ppoption OPF_VIOLATION = PDIPM_FEASTOL
+
+
+def opf_tol(net, ac):
+    """the OPF's own feasibility tolerance, in p.u. of a constraint function.  PIPS stops when
+    max(|g|, h) / (1 + max(|x|, |z|)) < OPF_VIOLATION = 5e-6, with z the slacks of ALL inequality constraints: the variable
+    bounds (p.u.) and, for the AC OPF, the squared current limits of the branches (p.u.^2).  The allowed absolute violation
+    is therefore 5e-6 * (1 + S); S is bounded here from the declared data (missing limits are left out: they are the
+    recorded finding).  A factor 1.25 covers the difference between the bound and the actual max(|x|, |z|)."""
+    base = float(net.sn_mva)
+    S = 2.0   # voltage magnitudes, angles
+    for t in ("ext_grid", "gen", "sgen", "load", "storage"):
+        if len(net[t]) == 0:
+            continue
+        m = _variable_rows(net, t)
+        for lo, hi in (("min_p_mw", "max_p_mw"), ("min_q_mvar", "max_q_mvar")):
+            if lo in net[t].columns and hi in net[t].columns and (ac or lo == "min_p_mw"):
+                for a_, b_ in zip(net[t][lo][m].values, net[t][hi][m].values):
+                    if a_ == a_ and b_ == b_:
+                        S = max(S, (abs(a_) + abs(b_)) / base)
+    for r in net.dcline.itertuples():
+        if bool(r.in_service):
+            S = max(S, 2 * abs(r.max_p_mw) / base)
+    rates = [float(r.max_loading_percent) / 100 * r.max_i_ka * r.df * r.parallel * float(net.bus.vn_kv.at[r.from_bus]) * math.sqrt(3)
+             for r in net.line.itertuples() if bool(r.in_service)]
+    rates += [float(r.max_loading_percent) / 100 * r.sn_mva * r.df * r.parallel for r in net.trafo.itertuples() if bool(r.in_service)]
+    for R in rates:
+        S = max(S, (R / base) ** 2 if ac else R / base)
+    return 1.25 * FEASTOL * (1.0 + S)
+
+
+def loading_tol(net, ac, max_loading, rate_mva, tol_h):
+    """excess of a reported loading (in %) that corresponds to the allowed violation tol_h of the branch constraint
+    (AC: |I|^2 <= (RATE_A/base)^2, DC: |P| <= RATE_A/base)"""
+    R = rate_mva / float(net.sn_mva)
+    if R <= 0:
+        return TOLL
+    if ac:
+        return TOLL + max_loading * (math.sqrt(1.0 + tol_h / (R * R)) - 1.0)
+    return TOLL + max_loading * tol_h / R
 
 
 class _Quiet:
@@ -225,12 +302,14 @@ class _Quiet:
 
 
 def check_constraints(ctx, net, ac, desc, init="flat", control=True):
-    """declared constraints on the result tables"""
+    """declared constraints on the result tables; returns [(kind, what)] (reported by the caller)"""
     bad = []
+    tol_h = opf_tol(net, ac)
+    TOLP_, TOLV_ = max(TOLP, tol_h * float(net.sn_mva)), max(TOLV, tol_h)
     if ac:
         for b in net.bus.index:
             v = net.res_bus.vm_pu.at[b]
-            if not (net.bus.min_vm_pu.at[b] - TOLV <= v <= net.bus.max_vm_pu.at[b] + TOLV):
+            if not (net.bus.min_vm_pu.at[b] - TOLV_ <= v <= net.bus.max_vm_pu.at[b] + TOLV_):
                 bad.append(("spec", "bus %d vm_pu=%.6f outside [%g, %g]" % (b, v, net.bus.min_vm_pu.at[b], net.bus.max_vm_pu.at[b])))
     for et in ("gen", "sgen", "load", "storage", "ext_grid"):
         tab, res = net[et], net["res_" + et]
@@ -249,34 +328,37 @@ def check_constraints(ctx, net, ac, desc, init="flat", control=True):
                         continue
                     l = tab[lo].at[i] if lo in tab.columns else float("nan")
                     h = tab[hi].at[i] if hi in tab.columns else float("nan")
-                    if (l == l and val < l - TOLP) or (h == h and val > h + TOLP):
+                    if (l == l and val < l - TOLP_) or (h == h and val > h + TOLP_):
                         bad.append(("spec", "%s %d: %s=%.6f outside [%s, %s]" % (et, i, nm, val, l, h)))
             if not ctrl and et != "ext_grid":
                 sc = float(tab.scaling.at[i]) if "scaling" in tab.columns else 1.0
                 sp = float(tab.p_mw.at[i]) * sc
-                if abs(p - sp) > TOLP:
+                if abs(p - sp) > TOLP_:
                     bad.append(("spec", "fixed %s %d: p=%.6f, setpoint p_mw*scaling=%.6f" % (et, i, p, sp)))
-                if et != "gen" and ac and abs(qv - float(tab.q_mvar.at[i]) * sc) > TOLP:
+                if et != "gen" and ac and abs(qv - float(tab.q_mvar.at[i]) * sc) > TOLP_:
                     bad.append(("spec", "fixed %s %d: q=%.6f, setpoint %.6f" % (et, i, qv, float(tab.q_mvar.at[i]) * sc)))
-                if et == "gen" and ac and abs(float(res.vm_pu.at[i]) - float(tab.vm_pu.at[i])) > TOLV:
+                if et == "gen" and ac and abs(float(res.vm_pu.at[i]) - float(tab.vm_pu.at[i])) > TOLV_:
                     bad.append(("spec", "fixed gen %d: vm=%.6f, setpoint %.6f" % (i, float(res.vm_pu.at[i]), float(tab.vm_pu.at[i]))))
     if ac:
         for i in net.ext_grid.index:
             if bool(net.ext_grid.in_service.at[i]) and ("controllable" not in net.ext_grid.columns or not bool(net.ext_grid.controllable.at[i])):
                 v = float(net.res_bus.vm_pu.at[net.ext_grid.bus.at[i]])
-                if abs(v - float(net.ext_grid.vm_pu.at[i])) > TOLV:
+                if abs(v - float(net.ext_grid.vm_pu.at[i])) > TOLV_:
                     bad.append(("spec", "ext_grid %d: bus vm=%.6f, setpoint %.6f" % (i, v, float(net.ext_grid.vm_pu.at[i]))))
     for i in net.line.index:
         if bool(net.line.in_service.at[i]):
             ld = float(net.res_line.loading_percent.at[i])
-            if ld > float(net.line.max_loading_percent.at[i]) + TOLL:
+            r_ = net.line.loc[i]
+            rate = float(r_.max_loading_percent) / 100 * r_.max_i_ka * r_.df * r_.parallel * float(net.bus.vn_kv.at[r_.from_bus]) * math.sqrt(3)
+            if ld > float(r_.max_loading_percent) + loading_tol(net, ac, float(r_.max_loading_percent), rate, tol_h):
                 bad.append(("spec", "line %d loading %.4f %% > %.1f %%" % (i, ld, float(net.line.max_loading_percent.at[i]))))
     for i in net.trafo.index:
         if bool(net.trafo.in_service.at[i]):
             ld = float(net.res_trafo.loading_percent.at[i])
             lim = float(net.trafo.max_loading_percent.at[i])
             ctx.count("trafo_" + ("binding" if ld > lim - 0.5 else "slack") + ("_export" if float(net.res_trafo.p_hv_mw.at[i]) < 0 else "_import"))
-            if ld > lim + TOLL:
+            r_ = net.trafo.loc[i]
+            if ld > lim + loading_tol(net, ac, lim, lim / 100 * r_.sn_mva * r_.df * r_.parallel, tol_h):
                 bad.append(("spec", "trafo %d loading %.4f %% > %.1f %% (p_hv=%.4f MW, shift %g deg)" % (
                     i, ld, lim, float(net.res_trafo.p_hv_mw.at[i]), float(net.trafo.shift_degree.at[i]))))
     for r in net.dcline.itertuples():
@@ -285,36 +367,25 @@ def check_constraints(ctx, net, ac, desc, init="flat", control=True):
         rd = net.res_dcline.loc[r.Index]
         pf = float(rd.p_from_mw)
         lo, hi = (0.0, r.max_p_mw) if r.p_mw > 0 else (-r.max_p_mw, 0.0)
-        if not (lo - TOLP <= pf <= hi + TOLP):
+        if not (lo - TOLP_ <= pf <= hi + TOLP_):
             bad.append(("spec", "dcline %d p_from=%.6f outside [%g, %g]" % (r.Index, pf, lo, hi)))
         if ac:
-            if abs(float(rd.q_from_mvar)) > max(abs(r.min_q_from_mvar), abs(r.max_q_from_mvar)) + TOLP or \
-               abs(float(rd.q_to_mvar)) > max(abs(r.min_q_to_mvar), abs(r.max_q_to_mvar)) + TOLP:
+            if abs(float(rd.q_from_mvar)) > max(abs(r.min_q_from_mvar), abs(r.max_q_from_mvar)) + TOLP_ or \
+               abs(float(rd.q_to_mvar)) > max(abs(r.min_q_to_mvar), abs(r.max_q_to_mvar)) + TOLP_:
                 bad.append(("spec", "dcline %d reactive power outside its limits" % r.Index))
         # the dcline's transfer law, the same in the OPF constraint row and in the power-flow model (_add_dcline_gens):
         # the receiving end gets p*(1 - loss%) - loss_mw of the power p drawn at the sending end (direction = sign of p_mw)
         pt = float(rd.p_to_mw)
         k = 1 - r.loss_percent / 100
         law = (-pt) - (pf * k - r.loss_mw) if r.p_mw > 0 else (-pf) - (pt * k - r.loss_mw)
-        if abs(law) > 3e-4:
+        if abs(law) > max(3e-4, tol_h * float(net.sn_mva)):
             bad.append(("spec", "dcline %d: p_from=%.6f p_to=%.6f violate the transfer law of the dcline (residual %.2e)" % (r.Index, pf, pt, law)))
-    if bad and control and missing_limits(net):
-        # recorded finding: with a missing limit the default 1e9 enters the slack variables and PIPS' relative feasibility
-        # test accepts points that violate constraints.  Classified only if the SAME problem with the missing limits
-        # replaced by +-1000 (never binding here) converges to a result without any violation.
-        n2 = with_finite_limits(net)
-        ok2, _ = run_opf(n2, ac, init)
-        if ok2:
-            q = _Quiet()
-            if not check_constraints(q, n2, ac, desc, init, control=False):
-                bad = [(KINDS[0] if k == "spec" else k, w + " [a limit column is NaN; with +-1000 instead the result respects all limits]") for k, w in bad]
-    for kind, what in bad:
-        ctx.violation(kind, what, desc)
     return bad
 
 
 def reproduce(ctx, net, ac, desc, Fg):
-    """power flow with the OPF dispatch as setpoints"""
+    """power flow with the OPF dispatch as setpoints; returns [(kind, what)] (reported by the caller)"""
+    out = []
     n2 = copy.deepcopy(net)
     for et in ("gen", "sgen", "load", "storage"):
         tab, res = n2[et], net["res_" + et]
@@ -353,22 +424,21 @@ def reproduce(ctx, net, ac, desc, Fg):
         else:
             pp.rundcpp(n2)
     except Exception as e:
-        ctx.violation("spec", "power flow with the OPF dispatch does not run: %s %s" % (type(e).__name__, str(e)[:200]), desc)
-        return
+        return [("spec", "power flow with the OPF dispatch does not run: %s %s" % (type(e).__name__, str(e)[:200]))]
     worst = 0.0
     what = ""
     # network state and branch flows (the split of reactive power between several voltage-controlling elements at one
     # bus is not unique, so element-level q is not compared).  PIPS' feasibility test is relative to the size of the
     # slack variables (line ratings squared), which leaves power mismatches of up to ~1e-3 MW in a converged result.
-    # (with missing limit columns the default limits of 1e9 make the slack variables huge and the relative test even
-    # weaker: observed 4e-3 MW at the slack bus; the tolerance is 1e-2 MW then)
-    lim_cols = [net[t][c] for t in ("ext_grid", "gen", "sgen", "load", "storage") for c in ("min_p_mw", "max_p_mw", "min_q_mvar", "max_q_mvar")
-                if c in net[t].columns and len(net[t])]
+    # tolerances from the OPF's own feasibility tolerance: the power mismatch it leaves at a bus is up to tol_h p.u.; flows
+    # are compared with 4x that (but at least 3e-3 MW), voltages with the mismatch times 0.2 p.u. impedance (at least 1e-4)
+    tol_h = opf_tol(net, ac)
     loose = missing_limits(net)
-    tp = 1e-2 if loose else 3e-3
+    tp = max(3e-3, 4 * tol_h * float(net.sn_mva))
+    tv = max(1e-4, 0.2 * tol_h)
     cmp_ = [("res_bus", "va_degree", 3e-3), ("res_line", "p_from_mw", tp), ("res_line", "p_to_mw", tp), ("res_ext_grid", "p_mw", tp)]
     if ac:
-        cmp_ += [("res_bus", "vm_pu", 5e-4 if loose else 1e-4), ("res_line", "q_from_mvar", tp)]
+        cmp_ += [("res_bus", "vm_pu", tv), ("res_line", "q_from_mvar", tp)]
     if len(net.dcline):
         cmp_ += [("res_dcline", "p_to_mw", tp)]
     if len(net.trafo):
@@ -407,11 +477,11 @@ def reproduce(ctx, net, ac, desc, Fg):
             if not d <= worst:
                 worst, what = d, "reactive power of the voltage-controlling elements at bus %d: OPF %.4f Mvar, power flow %.4f Mvar" % (b, qa[b], qb.get(b, float("nan")))
     if worst > 1.0:
-        kind = "spec"
-        ctx.violation(kind, "power flow with the OPF dispatch as setpoints does not reproduce the OPF result: " + what, desc)
-        ctx.count("reproduction_mismatch:" + kind)
+        out.append(("spec", "power flow with the OPF dispatch as setpoints does not reproduce the OPF result: " + what))
+        ctx.count("reproduction_mismatch")
     else:
         ctx.count("reproduction_ok")
+    return out
 
 
 def one_case(ctx, net, ac, tag, terms, pend, sample=False, init="flat"):
@@ -435,8 +505,20 @@ def one_case(ctx, net, ac, tag, terms, pend, sample=False, init="flat"):
                                                "impl_gen_rows": cap["gen"][:, :10].tolist() if cap else None} if sample else None)
     if not ok:
         return
-    check_constraints(ctx, net, ac, desc, init)
-    reproduce(ctx, net, ac, desc, Fg)
+    bad = check_constraints(ctx, net, ac, desc, init) + reproduce(ctx, net, ac, desc, Fg)
+    if bad and missing_limits(net):
+        # recorded finding: with a missing limit the default 1e9 enters the slack variables and PIPS' relative feasibility
+        # test accepts points that violate constraints / the power balance.  Classified only if the SAME problem with the
+        # missing limits replaced by the largest declared limit of the net converges to a result without any violation.
+        n2 = with_finite_limits(net)
+        ok2, _ = run_opf(n2, ac, init)
+        if ok2:
+            q = _Quiet()
+            if not (check_constraints(q, n2, ac, desc, init) + reproduce(q, n2, ac, desc, Fg)):
+                bad = [(KINDS[0] if k == "spec" else k, w + " [a limit of an OPF variable is NaN; with the largest declared limit instead the result has no violation]")
+                       for k, w in bad]
+    for kind, what in bad:
+        ctx.violation(kind, what, desc)
 
 
 def add_trafo(net, rng):
